@@ -44,8 +44,8 @@ _CMP = {
     ast.LtE: operator.le,
     ast.Gt: operator.gt,
     ast.GtE: operator.ge,
-    ast.In: lambda a, b: a in b,
-    ast.NotIn: lambda a, b: a not in b,
+    ast.In: lambda a, b: _contains(b, a),
+    ast.NotIn: lambda a, b: not _contains(b, a),
     ast.Is: lambda a, b: a is b,
     ast.IsNot: lambda a, b: a is not b,
 }
@@ -70,6 +70,9 @@ class _Lambda:
         self.node = node
         self.env = env
 
+    def __call__(self, *args: Any) -> Any:
+        return self.call(_CURRENT[-1], list(args))
+
     def call(self, f: "Folder", args: list) -> Any:
         a = self.node.args
         params = [x.arg for x in a.posonlyargs + a.args]
@@ -80,6 +83,45 @@ class _Lambda:
         sub = Folder(env, f.repo, f.mod, f.cls, f.hook)
         sub.depth = f.depth
         return sub.fold(self.node.body)
+
+
+class _Partial(Abstract):
+    """functools.partial(f, *args, **kwargs)"""
+
+    def __init__(self, f: Any, args: list, kwargs: dict):
+        self.f, self.args, self.kwargs = f, args, kwargs
+
+    def call(self, folder: "Folder", args: list, kwargs: Optional[dict] = None) -> Any:
+        allargs = list(self.args) + list(args)
+        kw = dict(self.kwargs)
+        kw.update(kwargs or {})
+        return call_value(folder, self.f, allargs, kw)
+
+    def __call__(self, *args: Any, **kwargs: Any) -> Any:
+        return self.call(_CURRENT[-1], list(args), kwargs)
+
+
+_CURRENT: list = []
+
+
+def call_value(folder: "Folder", f: Any, args: list, kwargs: Optional[dict] = None) -> Any:
+    """call a callable value met during evaluation"""
+    kwargs = kwargs or {}
+    if isinstance(f, (_Lambda, _LocalFn)):
+        if kwargs:
+            raise Unfoldable("keyword arguments to a local function")
+        return f.call(folder, args)
+    if isinstance(f, _Partial):
+        return f.call(folder, args, kwargs)
+    if type(f).__name__ == "_BoundMethod":
+        return f.call(folder, args, kwargs)
+    if f is None:
+        from .absint import Raised
+
+        raise Raised("TypeError", ast.Constant(value=None))
+    if callable(f):
+        return f(*args, **kwargs)
+    raise Unfoldable("not callable: %r" % (f,))
 
 
 class _LocalFn:
@@ -108,6 +150,13 @@ class _LocalFn:
         return ev.run(body_without_docstring_(self.node))
 
 
+def _contains(container: Any, item: Any) -> bool:
+    try:
+        return item in container
+    except TypeError:
+        return any(x is item for x in container)
+
+
 class Folder:
     def __init__(
         self,
@@ -117,7 +166,12 @@ class Folder:
         cls: Optional[ClassInfo] = None,
         hook: Optional[Callable[[ast.expr, "Folder"], Any]] = None,
     ):
-        self.env = dict(env or {})
+        if env is not None and hasattr(env, "outer"):
+            merged = dict(env.outer)  # type: ignore
+            merged.update(dict.items(env))  # type: ignore
+            self.env = merged
+        else:
+            self.env = dict(env or {})
         self.repo = repo
         self.mod = mod
         self.cls = cls
@@ -131,6 +185,7 @@ class Folder:
         self.depth += 1
         if self.depth > 200:
             raise Unfoldable("recursion")
+        _CURRENT.append(self)
         try:
             return self._fold(e)
         except (TypeError, AttributeError, ValueError, RecursionError) as ex:
@@ -138,6 +193,7 @@ class Folder:
             raise Unfoldable("%s: %s(%s)" % (unparse(e)[:60], type(ex).__name__, ex))
         finally:
             self.depth -= 1
+            _CURRENT.pop()
 
     def _fold(self, e: ast.expr) -> Any:
         if self.hook is not None:
@@ -152,6 +208,8 @@ class Folder:
         if d is not None and d in self.env:
             return self.env[d]
         if isinstance(e, ast.Name):
+            if e.id == "NotImplemented":
+                return NotImplemented
             return self._resolve(e)
         if isinstance(e, ast.Attribute):
             if d is not None and d.split(".")[0] in self.env:
@@ -236,6 +294,18 @@ class Folder:
             left = self.fold(e.left)
             for op, c in zip(e.ops, e.comparators):
                 right = self.fold(c)
+                if isinstance(op, (ast.Eq, ast.NotEq)) and (type(left).__name__ == "AObj" or type(right).__name__ == "AObj"):
+                    # the class's own __eq__ decides (as Python would: left operand first, then the reflected one)
+                    from .absint import aobj_eq
+
+                    r_ = aobj_eq(self, left, right)
+                    if r_ is NotImplemented:
+                        r_ = left is right
+                    res_ = bool(r_) if isinstance(op, ast.Eq) else not bool(r_)
+                    if not res_:
+                        return False
+                    left = right
+                    continue
                 f = _CMP.get(type(op))
                 if f is None:
                     raise Unfoldable(unparse(e))
@@ -483,6 +553,13 @@ class Folder:
                 if isinstance(recv, dict) and m in ("get", "keys", "values", "items"):
                     r = getattr(recv, m)(*[self.fold(a) for a in args])
                     return list(r) if m != "get" else r
+                if isinstance(recv, dict) and m in ("setdefault", "pop"):
+                    try:
+                        return getattr(recv, m)(*[self.fold(a) for a in args])
+                    except KeyError:
+                        from .absint import Raised
+
+                        raise Raised("KeyError", e)
                 if isinstance(recv, str) and m in ("split", "rsplit", "startswith", "endswith", "count", "replace", "join", "isdigit", "isascii", "isdecimal"):
                     return getattr(recv, m)(*[self.fold(a) for a in args])
                 if (isinstance(recv, str) and m == "encode") or (isinstance(recv, (bytes, bytearray)) and m == "decode"):
@@ -672,6 +749,8 @@ class Folder:
             import collections as _c
 
             return _c.defaultdict({"list": list, "set": set, "dict": dict, "int": int}[dotted(args[0])])
+        if name in ("functools.partial", "partial") and args:
+            return _Partial(self.fold(args[0]), [self.fold(a) for a in args[1:]], {k.arg: self.fold(k.value) for k in e.keywords if k.arg})
         if name in ("math.lcm", "math.gcd"):
             vals = [self.fold(a) for a in args]
             return getattr(math, name.split(".")[1])(*vals)
@@ -712,6 +791,8 @@ class Folder:
             fv = self.env[e.func.id]
         if isinstance(fv, (_Lambda, _LocalFn)):
             return fv.call(self, [self.fold(a) for a in args])
+        if isinstance(fv, _Partial):
+            return fv.call(self, [self.fold(a) for a in args], {k.arg: self.fold(k.value) for k in e.keywords if k.arg})
         if fv is Fraction:
             return Fraction(*[self.fold(a) for a in args])
         if type(fv).__name__ == "_BoundMethod":
